@@ -102,6 +102,12 @@ class C02(Check):
             fill = [self.of.ofp_echo_request(xid=i, body=bytes([i & 0xff] * 120)).pack().hex() for i in range(128)]   # 128 x 128 = 16384 bytes
             for cuts in ([], [8192], [2048, 4096], [8191], [8193]):
                 cases.append({"side": side, "msgs": fill, "cuts": cuts})
+            # two connections of the same kind served side by side, each with its own stream cut inside headers and bodies
+            for k in range(6):
+                a, b = self._stream(rng, 3), self._stream(rng, 4)
+                La, Lb = sum(len(m) // 2 for m in a), sum(len(m) // 2 for m in b)
+                cases.append({"side": side, "msgs": a, "cuts": sorted(set([3, 9, La // 2, La - 1]) & set(range(1, La))),
+                              "other": {"msgs": b, "cuts": sorted(set([1, 8, 11, Lb // 3, Lb - 2]) & set(range(1, Lb)))}})
             # many complete messages inside ONE read (a burst): 70, 130, 300 and 700 short messages without any cut,
             # and the same bursts followed by a straggler
             tiny = [self.of.ofp_echo_request(xid=i, body=bytes([i & 0xff] * (i % 3))).pack().hex() for i in range(700)]
@@ -119,7 +125,11 @@ class C02(Check):
             k = rng.choice([1, 2, 3, rng.randint(0, 12), rng.randint(0, 40)])
             cuts = sorted(rng.randint(1, max(1, L - 1)) for _ in range(k))
             if rng.random() < 0.1: cuts = list(range(1, min(L, 400)))
-            yield {"side": rng.choice(["ctl", "sw"]), "msgs": msgs, "cuts": cuts}
+            case = {"side": rng.choice(["ctl", "sw"]), "msgs": msgs, "cuts": cuts}
+            if rng.random() < 0.25:
+                m2 = self._stream(rng, rng.choice([1, 2, 5, rng.randint(1, 20)])); L2 = sum(len(m) // 2 for m in m2)
+                case["other"] = {"msgs": m2, "cuts": sorted(rng.randint(1, max(1, L2 - 1)) for _ in range(rng.randint(0, 8)))}
+            yield case
         if tier == "thorough":                                      # every 2-cut of short streams
             for _ in range(6):
                 msgs = self._stream(rng, 3)
@@ -142,12 +152,20 @@ class C02(Check):
                 return r
             return w
         status = "alive"
+        # a companion connection of the same kind, served in the same process (and, switch side, by the same loop), fed its
+        # own stream chunk by chunk in between: the two must not share any state
+        oth = case.get("other")
+        ochunks = segment(b"".join(bytes.fromhex(m) for m in oth["msgs"]), oth["cuts"], CAP[case["side"]]) if oth else []
+        odelivered, ostatus = [], "alive"
         if case["side"] == "ctl":
             sock = ScriptSock()
             con = self.of_01.Connection(sock)
             con.unpackers = [wrap(u) for u in con.unpackers]
             con.handlers = [(lambda c, m: delivered.append(last[0].hex()))] * 256
-            for ch in chunks:
+            if oth:
+                osock = ScriptSock(); ocon = self.of_01.Connection(osock)
+                ocon.handlers = [(lambda c, m: odelivered.append(bytes(m.pack()).hex()))] * 256
+            for i, ch in enumerate(chunks):
                 sock.chunks.append(ch)
                 try:
                     r = con.read()
@@ -155,6 +173,19 @@ class C02(Check):
                     status = "dead:" + type(e).__name__; break
                 if r is False: status = "closed"; break
                 counts.append(len(delivered))
+                if oth and i < len(ochunks) and ostatus == "alive":
+                    osock.chunks.append(ochunks[i])
+                    try:
+                        if ocon.read() is False: ostatus = "closed"
+                    except Exception as e:
+                        ostatus = "dead:" + type(e).__name__
+            if oth and ostatus == "alive":
+                for ch in ochunks[len(chunks):]:
+                    osock.chunks.append(ch)
+                    try:
+                        if ocon.read() is False: ostatus = "closed"; break
+                    except Exception as e:
+                        ostatus = "dead:" + type(e).__name__; break
             buf = bytes(con.buf).hex()
         else:
             # the real RecocoIOLoop generator serves the worker: every chunk is one socket read in IOWorker._do_recv
@@ -164,8 +195,16 @@ class C02(Check):
             ofc = self.OFConnection(w)
             ofc.unpackers = [wrap(u) for u in ofc.unpackers]
             ofc.set_message_handler(lambda c, m: delivered.append(last[0].hex()))
+            if oth:
+                osock = ScriptSock(); ow = loop.new_worker(osock); oofc = self.OFConnection(ow)
+                oofc.set_message_handler(lambda c, m: odelivered.append(bytes(m.pack()).hex()))
             g = loop.run(); next(g)
-            for ch in chunks:
+            def ofeed(ch):
+                osock.chunks.append(ch)
+                try: g.send(([ow], [], []))
+                except StopIteration: return "dead:loop"
+                return "closed" if (ow.closed or ow._shutdown_send) else "alive"
+            for i, ch in enumerate(chunks):
                 sock.chunks.append(ch)
                 try:
                     g.send(([w], [], []))
@@ -173,8 +212,14 @@ class C02(Check):
                     status = "dead:loop"; break
                 if w.closed or w._shutdown_send: status = "closed"; break
                 counts.append(len(delivered))
+                if oth and i < len(ochunks) and ostatus == "alive": ostatus = ofeed(ochunks[i])
+            if oth and status != "dead:loop":
+                for ch in ochunks[len(chunks):]:
+                    if ostatus != "alive": break
+                    ostatus = ofeed(ch)
             buf = bytes(w.receive_buf).hex()
-        return {"delivered": delivered, "counts": counts, "buf": buf, "status": status, "chunks": [c.hex() for c in chunks]}
+        return {"delivered": delivered, "counts": counts, "buf": buf, "status": status, "chunks": [c.hex() for c in chunks],
+                "other_delivered": odelivered, "other_status": ostatus}
 
     def model_request(self, case):
         stream = b"".join(bytes.fromhex(m) for m in case["msgs"])
@@ -190,6 +235,10 @@ class C02(Check):
     def oracle(self, case, obs):
         msgs = case["msgs"]
         if obs["status"] != "alive": return "connection %s on a well-formed stream" % obs["status"]
+        if case.get("other"):
+            if obs["other_status"] != "alive": return "companion connection %s on a well-formed stream" % obs["other_status"]
+            if obs["other_delivered"] != case["other"]["msgs"]:
+                return "companion connection delivered %d messages, sent %d (state shared between connections?)" % (len(obs["other_delivered"]), len(case["other"]["msgs"]))
         if obs["delivered"] != msgs:
             return "delivered %d messages, sent %d (lost/duplicated/merged/reordered)" % (len(obs["delivered"]), len(msgs))
         ends, p = [], 0
